@@ -636,7 +636,8 @@ SPEC = PropSpec(
                  "any particular value is the checker's table, not numpy itself."
                  ' The generator must be called once per file (files glued into one byte stream are a violation) and a field-set mismatch must be rejected in every order (subset first, superset first, extra field, renamed field).'
                  ' Generator options given by the caller reach the generator for every file; files have first bytes (a legal identification word equal to the gzip magic) and gzip.open fails on them.'
-                 ' Rows: APIDs 0, 3 and 2047 whose sequence counts wrap and restart (stream order, not counter order); numpy sorting/indexing helpers are modelled.'),
+                 ' Rows: APIDs 0, 3 and 2047 whose sequence counts wrap and restart (stream order, not counter order); numpy sorting/indexing helpers are modelled.'
+                 " The file list is also given as tuple / one-shot iterator / generator / Path objects; a column given to numpy without dtype is judged by numpy's column-level inference (int64-only mixed with uint64-only values -> float64)."),
     rule_doc="R18.1 per encoding spelling over all widths; R18.2 per (mode, parameter kind); R18.4 accumulation and mismatch",
     assumptions=["numpy: (u)intN capacity, float16/32 rounding, S/U dtypes strip trailing NULs, dtype=None infers a lossless dtype"],
     mutants=mutants,
